@@ -105,6 +105,21 @@ theorem contract_flows_iff (p : OneCall) (hi : p.i < p.sg.nParams)
       k < p.sg.nParams ∧ k ≠ p.i ∧ p.ptr k = true ∧ ∃ row, p.spec.args[p.i]? = some row ∧ (k : Int) ∈ row) :=
   visitOneCall_exact p hi hidx fuel hconv
 
+/-- the visitor loop on a one-call program terminates within the fuel the oracle gives it … -/
+theorem contract_visit_terminates (p : OneCall) (hi : p.i < p.sg.nParams)
+    (hidx : ∀ j, j < p.sg.nResults → p.resIdx j = (j : Int)) :
+    (visitOneCall p (defaultFuel p)).converged = true :=
+  converged_default p hi hidx
+
+/-- … so the statement holds unconditionally for the run the oracle performs. -/
+theorem contract_flows_iff_default (p : OneCall) (hi : p.i < p.sg.nParams)
+    (hidx : ∀ j, j < p.sg.nResults → p.resIdx j = (j : Int)) :
+    (∀ j, Sum.inl j ∈ (visitOneCall p (defaultFuel p)).reported ↔
+      j < p.sg.nResults ∧ ∃ row, p.spec.rets[p.i]? = some row ∧ (j : Int) ∈ row) ∧
+    (∀ k, Sum.inr k ∈ (visitOneCall p (defaultFuel p)).reported ↔
+      k < p.sg.nParams ∧ k ≠ p.i ∧ p.ptr k = true ∧ ∃ row, p.spec.args[p.i]? = some row ∧ (k : Int) ∈ row) :=
+  contract_flows_iff p hi hidx _ (contract_visit_terminates p hi hidx)
+
 /-! ### non-vacuity -/
 
 example : (visitOneCall ⟨⟨3, 2⟩, ⟨[[1], [2], []], [[], [], [1]]⟩, 0, fun _ => true, fun j => j⟩ 30).reported = [.inr 1] := by
@@ -128,5 +143,7 @@ example : resolveCallee (B := Unit)
 #print axioms body_irrelevant
 #print axioms contract_function_not_summarised
 #print axioms contract_flows_iff
+#print axioms contract_visit_terminates
+#print axioms contract_flows_iff_default
 
 end Argot.Contract
